@@ -54,19 +54,30 @@ def _try(f, *a, **k):
         return _Raised(ex)
 
 
-def _do(gb, fresh_builder, op, rng, n, raw_keys):
+def _refill(bufs, rng, n):
+    """the caller rewrites its reusable argument buffers IN PLACE (same objects, new contents)."""
+    bufs["v"][:] = [rng.choice([np.nan, 1.0, 2.0, 3.0]) for _ in range(n)]
+    # whole groups drop out of / come back into the selection, the way "everything but group k" loops do
+    drop = rng.choice(sorted(set(bufs["ids"])))
+    bufs["m"][:] = [(k != drop) and rng.random() < 0.85 for k in bufs["ids"]]
+
+
+def _do(gb, fresh_builder, op, rng, n, raw_keys, bufs=None):
     """perform one concrete call of class `op` on gb and on a fresh object; returns (result equal?, new gb)."""
     from groupby_lib import GroupBy
     v = np.array([rng.choice([np.nan, 1.0, 2.0, 3.0]) for _ in range(n)])
     m = None if rng.random() < 0.5 else np.array([rng.random() < 0.6 for _ in range(n)])
+    reuse = bufs is not None and rng.random() < 0.6
+    if reuse:                    # the caller's long-lived buffers (refilled in place by the "refill" steps)
+        v, m = bufs["v"], bufs["m"]
     fresh = fresh_builder()
     if op in ("reduce", "transform", "size"):
         # reductions also see value dtypes without an in-band null and slice / positional masks
         r = rng.random()
-        if r < 0.5:
+        if r < 0.5 and not reuse:
             dt = rng.choice(["int32", "uint8", "bool", "int64", "float32"])
             v = np.array([rng.choice([1, 2, 3, 5]) for _ in range(n)]).astype(dt)
-        r = rng.random()
+        r = rng.random() if not reuse else 1.0
         if r < 0.2 and n >= 2:
             k = rng.randrange(1, n)
             m = slice(k, None) if rng.random() < 0.6 else slice(None, k)
@@ -139,9 +150,15 @@ def run_history(case):
     r0 = _rep(gb)
     if r0 not in (case["init"], "unobservable"):
         tr["init"] = r0          # e.g. fully monotonic keys stay flat even above the threshold
+    bufs = {"v": np.zeros(n), "m": np.ones(n, dtype=bool), "ids": list(ids)}
+    _refill(bufs, rng, n)
     for op in case["ops"]:
         try:
-            eq, gb = _do(gb, fresh_builder, op, rng, n, raw_keys)
+            if op == "refill":
+                _refill(bufs, rng, n)
+                eq = True
+            else:
+                eq, gb = _do(gb, fresh_builder, op, rng, n, raw_keys, bufs)
             ev = {"op": op, "rep": _rep(gb), "eq": int(bool(eq))}
         except Exception as ex:
             ev = {"op": op, "rep": "unobservable", "eq": 0, "exc": f"{type(ex).__name__}: {ex}"[:150]}
